@@ -38,13 +38,19 @@ def case(draw, tier):
     start = draw(st.sampled_from([0, 0, 3]))
     horizon = draw(st.integers(5, 36 if big else 16))
     end = start + horizon
-    shape = draw(st.sampled_from(["TS[int]", "TS[int]", "TSS[int]", "TSS[int]", "TSD[int,TS[int]]"]))
+    shape = draw(st.sampled_from(["TS[int]", "TS[int]", "TSS[int]", "TSS[int]", "TSD[int,TS[int]]", "TSB[f0:TS[int],f1:TS[int]]"]))
 
     def target():
         if shape == "TS[int]":
             return draw(gen.int_script(start, end - 1, max_size=8 if big else 5))
         if shape == "TSS[int]":
             return _set_script(draw, start, end, 7 if big else 5)
+        if shape.startswith("TSB"):
+            out = []
+            for t in draw(gen.time_set(start, end - 1, 1, 7 if big else 5)):
+                fields = draw(st.lists(st.integers(0, 1), min_size=1, max_size=2, unique=True))
+                out.append([t, [{"k": "i", "i": f, "op": {"k": "set", "v": draw(st.integers(0, 40))}} for f in fields]])
+            return out
         return _dict_script(draw, start, end, 7 if big else 5)
     a, b = target(), target()
     ctimes = draw(gen.time_set(start, end - 1, 1, 9 if big else 6))
@@ -57,7 +63,12 @@ def strategy(tier):
 
 
 def schema_of(shape):
-    return {"TS[int]": ("TS", "int"), "TSS[int]": ("TSS", "int"), "TSD[int,TS[int]]": ("TSD", "int", ("TS", "int"))}[shape]
+    return {"TS[int]": ("TS", "int"), "TSS[int]": ("TSS", "int"), "TSD[int,TS[int]]": ("TSD", "int", ("TS", "int")),
+            "TSB[f0:TS[int],f1:TS[int]]": ("TSB", [("f0", ("TS", "int")), ("f1", ("TS", "int"))])}[shape]
+
+
+def tvalid(m):
+    return m.has_data() if m.k in ("TSB", "TSL") else m.valid
 
 
 def val_of(m):
@@ -130,9 +141,9 @@ def check(case, ctx) -> Result:
         if oth.modified() and not retarget and retarget_to_old:
             unselected_tick_after = True
         if retarget:
-            if tgt.valid and not ticked and cur is not None:
+            if tvalid(tgt) and not ticked and cur is not None:
                 retarget_to_old = True
-            if tgt.valid:
+            if tvalid(tgt):
                 v = val_of(tgt)
                 olds = [held]
                 prev_m = {"a": A, "b": B}.get(cur)
@@ -148,7 +159,7 @@ def check(case, ctx) -> Result:
         elif ticked:
             exp[t] = {"kind": "tick", "value": val_of(tgt)}
         cur = new
-        if tgt.valid:
+        if tvalid(tgt):
             held = val_of(tgt)
     sel_changes, last = [], None
     for t, ops in case["c"]:
@@ -185,7 +196,7 @@ def check(case, ctx) -> Result:
             if not g.get("m") or gv != e["value"]:
                 res.violations.append(Viol("wrong_value_through_reference", f"consumer {lbl} at t={t} ({e['kind']}): read {str(gv)[:100]} modified={g.get('m')}, the current target holds {str(e['value'])[:100]}", feats))
                 break
-            if e["kind"] == "retarget" and shape != "TS[int]":
+            if e["kind"] == "retarget" and (shape.startswith("TSS") or shape.startswith("TSD")):
                 acc = g.get("acc") or {}
                 new_v = e["value"]
                 ok = stale_only = False
